@@ -222,6 +222,8 @@ def _sig_escaped_backticks(case: dict, f: Failure) -> bool:
     out = _fmt_c01(x, width, semantic)
     if "\\`" not in out:
         return False
+    if _re.search(r"(?:\\`){3,}[^\n]*`|`[^\n]*(?:\\`){3,}", out):
+        return True  # an escaped fence word and another backtick on the same output line
     # (a private-use character stands in for the escaped backtick on both sides)
     return canon.canon_out(out.replace("\\`", "\ue000"))[1] == canon.map_text(canon.canon_in(x), lambda t: t.replace("`", "\ue000"))[1]
 
